@@ -11,16 +11,28 @@ import (
 // quiescence detection). It returns leaked=true if goroutines of the bubble were still
 // blocked when f returned (a deadlocked simulated program): they stay blocked forever,
 // which is harmless for a bounded worker process.
+//
+// synctest.Test is called on a helper goroutine: when the race detector reported something
+// during the bubble, the testing package calls t.FailNow (runtime.Goexit) on the goroutine
+// that called synctest.Test, which must not be the driver's.
 func RunBubble(t *testing.T, f func()) (leaked bool) {
-	defer func() {
-		if r := recover(); r != nil {
-			if strings.Contains(fmt.Sprint(r), "deadlock:") {
-				leaked = true
-				return
+	done := make(chan interface{}, 1)
+	go func() {
+		var pv interface{}
+		defer func() { done <- pv }()
+		defer func() {
+			if r := recover(); r != nil {
+				if strings.Contains(fmt.Sprint(r), "deadlock:") {
+					leaked = true
+					return
+				}
+				pv = r
 			}
-			panic(r)
-		}
+		}()
+		synctest.Test(t, func(*testing.T) { f() })
 	}()
-	synctest.Test(t, func(*testing.T) { f() })
-	return false
+	if pv := <-done; pv != nil {
+		panic(pv)
+	}
+	return leaked
 }
